@@ -786,7 +786,11 @@ impl Model {
                         }
                         // in-place update hazard (KF-update-in-place)
                         let others_active = self.active_txs().into_iter().any(|x| x != t);
-                        if others_active {
+                        // a row whose every version was written by the updater itself is invisible to everyone else
+                        // whatever happens to the update, so updating it in place cannot leak
+                        let wholly_own = rr.versions.iter().all(|(x, _)| *x == t);
+                        if wholly_own {
+                        } else if others_active {
                             self.hazard(KF_UPDATE_IN_PLACE);
                         } else if self.enabled_hazards.contains(KF_UPDATE_IN_PLACE) {
                             // pending until the updater commits; fires if it aborts (explicit rollback,
